@@ -85,6 +85,7 @@ class Facts:
         self.callsites = defaultdict(list)  # callee name -> [(body path, bb)]
         self.calls_in = defaultdict(list)  # body path -> [(bb, term)]
         self.closures_in = defaultdict(set)  # body path -> closure/coroutine def paths built
+        self.fnitems_in = defaultdict(set)  # body path -> fn items used as values
         for bp, b in self.bodies.items():
             for i, bl in enumerate(b["blocks"]):
                 if bl["cleanup"]:
@@ -96,8 +97,18 @@ class Facts:
                         "coroutineclosure",
                     ):
                         self.closures_in[bp].add(s["r"]["def"])
+                    # a function item used as a value (`.filter_map(Tag::from_stored)`) is called by whoever
+                    # receives it: remember it as a may-call target of this body
+                    if s["k"] == "assign":
+                        r_ = s["r"]
+                        for o_ in [r_.get(k_) for k_ in ("o", "a", "b")] + list(r_.get("ops", []) or []):
+                            if isinstance(o_, dict) and isinstance(o_.get("k"), dict) and o_["k"].get("fn"):
+                                self.fnitems_in[bp].add(o_["k"]["fn"])
                 t = bl["t"]
                 if t and t["k"] == "call":
+                    for o_ in t.get("args", ()) or ():
+                        if isinstance(o_, dict) and isinstance(o_.get("k"), dict) and o_["k"].get("fn"):
+                            self.fnitems_in[bp].add(o_["k"]["fn"])
                     self.calls_in[bp].append((i, t))
                     for n in call_names(t):
                         self.callsites[n].append((bp, i))
@@ -134,8 +145,23 @@ class Facts:
             for (_i, t) in self.calls_in.get(bp, ()):
                 for tgt in self.call_targets(t):
                     cg[bp].add(tgt)
+            for fnname in self.fnitems_in.get(bp, ()):
+                if fnname in self.bodies:
+                    cg[bp].add(fnname)
+                else:
+                    nn = re.sub(r"::<[^>]*>", "", fnname)
+                    for q in self._norm_index().get(nn, ()):
+                        cg[bp].add(q)
         self._cg = cg
         return cg
+
+    def _norm_index(self):
+        if getattr(self, "_nidx", None) is None:
+            idx = defaultdict(list)
+            for q in self.bodies:
+                idx[re.sub(r"::<[^>]*>", "", q)].append(q)
+            self._nidx = idx
+        return self._nidx
 
     def call_targets(self, t):
         out = set()
